@@ -12,7 +12,10 @@
 (*   lclose            the harness called connection.disconnect()          *)
 (*   msg      sid      MessageReceivedEvent for this connection, seen by the *)
 (*                     first listener on the bus; sid is the sentinel id   *)
-(*                     carried by the message, 0 if none                   *)
+(*                     carried by the message if the message EQUALS the    *)
+(*                     sentinel that was sent (sentinels come in several   *)
+(*                     frame sizes), -1 if it carries the id with altered  *)
+(*                     content, 0 if it is no sentinel                     *)
 (*   hdone             the same event reached the last listener on the bus: *)
 (*                     every manager's handler has run                     *)
 (*   peer_init typ     PeerInitializedEvent for this connection (P, D, F)  *)
